@@ -9,6 +9,7 @@ for d in sorted(glob.glob('/verif/seeded/*/')):
     own=ex.get(m['property'])
     caught=[p for p,c in ex.items() if c==1]
     status='caught by '+', '.join(caught) if caught else ('MISSED' if ex else 'not run')
+    if not caught and (m.get('note') or '').startswith('NOT CLAIMED'): status='not caught'
     what=(m.get('what_it_breaks') or '').replace('\n',' ').replace('|','/')
     if len(what)>150: what=what[:147]+'...'
     needs=(m.get('needs_to_manifest') or '').replace('\n',' ').replace('|','/')
